@@ -160,7 +160,7 @@ func discharge(w *World, obls []*Obligation, opt dischargeOpts) {
 	// three times the limit, before they are reported as undischarged.
 	var late []int
 	for i, o := range obls {
-		if o.vc != nil && !o.Trivial && o.Status == "timeout" {
+		if o.vc != nil && !o.Trivial && o.Status == "timeout" && o.Kind != "cover" {
 			late = append(late, i)
 		}
 	}
@@ -225,7 +225,7 @@ func dischargeOne(w *World, i int, o *Obligation, opt dischargeOpts) {
 	cvcFile := strings.TrimSuffix(file, ".smt2") + ".cvc5.smt2"
 	raced := false
 	if isCover {
-		st, out, secs := runSolver(coverSolver, file, 5, opt.seed)
+		st, out, secs := runSolver(coverSolver, file, 3, opt.seed)
 		total += secs
 		if st == "unknown" && strings.Contains(out, "incomplete") {
 			st = "consistent"
